@@ -316,12 +316,13 @@ fn get_char_value(src: &[u8], len: usize, i: usize) -> Option<Option<io::Result<
         Err(e) => return Some(Some(Err(e))),
     };
 
-    // TODO
-    let c = s.chars().next().unwrap();
-
-    match c {
-        MISSING => Some(None),
-        _ => Some(Some(Ok(Value::Character(c)))),
+    match s.chars().next() {
+        Some(MISSING) => Some(None),
+        Some(c) => Some(Some(Ok(Value::Character(c)))),
+        None => Some(Some(Err(io::Error::new(
+            io::ErrorKind::InvalidData,
+            "missing character",
+        )))),
     }
 }
 
